@@ -798,41 +798,7 @@ impl BuildTargetActor {
 // ===========================================================================
 //@item src/engine/target_actor/service_target_actor.rs ServiceTargetActor pubfields
 
-/// `run_script::build_command(script, dir)` (A-proc)
-#[verifier::external_body]
-pub fn build_command(script: &String, dir: &PathBuf) -> (r: Command)
-    ensures r.script() == *script, r.dir() == *dir,
-{ unimplemented!() }
-
-impl Command {
-    pub uninterp spec fn script(&self) -> String;
-    pub uninterp spec fn dir(&self) -> PathBuf;
-    #[verifier::external_body]
-    pub fn stdout(&mut self, s: Stdio) -> (r: CmdChain)
-        ensures final(self).script() == old(self).script(), final(self).dir() == old(self).dir(),
-    { unimplemented!() }
-    /// either fails, or adds exactly one new live child (A-proc)
-    #[verifier::external_body]
-    pub fn spawn(&mut self, Tracked(tr): Tracked<&mut Trace>) -> (r: std::result::Result<Child, IoError>)
-        ensures
-            r matches Ok(c) ==> !old(tr).spawned.contains(c.id()) && !old(tr).waited.contains(c.id())
-                && *final(tr) == (Trace { spawn_calls: old(tr).spawn_calls + 1, spawned: old(tr).spawned.insert(c.id()), ..*old(tr) }),
-            r is Err ==> *final(tr) == (Trace { spawn_calls: old(tr).spawn_calls + 1, ..*old(tr) }),
-    { unimplemented!() }
-}
-impl Child {
-    #[verifier::external_body]
-    pub fn kill(&mut self, Tracked(tr): Tracked<&mut Trace>) -> (r: std::result::Result<(), IoError>)
-        ensures final(self).id() == old(self).id(),
-            *final(tr) == (Trace { killed: old(tr).killed.insert(old(self).id()), ..*old(tr) }),
-    { unimplemented!() }
-    /// `status().await`: the child has been waited for (reaped when Ok)
-    #[verifier::external_body]
-    pub fn status(&mut self, Tracked(tr): Tracked<&mut Trace>) -> (r: std::result::Result<ExitStatus, IoError>)
-        ensures final(self).id() == old(self).id(),
-            *final(tr) == (Trace { waited: old(tr).waited.insert(old(self).id()), ..*old(tr) }),
-    { unimplemented!() }
-}
+//@include procfx.rs
 
 /// one firing of the service actor's `select!` (R3); same assumptions as `select_build`, no `Done` arm
 #[verifier::external_body]
@@ -942,7 +908,7 @@ impl ServiceTargetActor {
                 proof { lemma_start_ready(&self.helper, *tr); }
                 assert(/*[C01.start-service]*/ all_deps_ok(&self.helper, *tr));
                 assert(/*[C08.once-local]*/ self.helper.to_execute);
-//@select 0 enum=Ev oracle=`select_service(&self.helper)`
+//@select 0 enum=Ev oracle=`select_service(&self.helper)` fallback
 //@arm Term `self.helper.termination_events.next().fuse()`
 //@arm Inval `self.helper.target_invalidated_events.next().fuse()`
 //@arm Msg `self.helper.target_actor_input_receiver.next().fuse()`
@@ -1033,7 +999,7 @@ impl AggregateTargetActor {
 //@loopbody
             broadcast use group_keys;
             broadcast use vstd::std_specs::hash::group_hash_axioms;
-//@select 0 enum=Ev oracle=`select_aggregate(&self.helper)`
+//@select 0 enum=Ev oracle=`select_aggregate(&self.helper)` fallback
 //@arm Term `self.helper.termination_events.next().fuse()`
 //@arm Msg `self.helper.target_actor_input_receiver.next().fuse()`
             let ghost log0 = tr.inlog;
